@@ -28,17 +28,34 @@ import neuroml.writers as W
 
 NS = 'xmlns="http://www.neuroml.org/schema/neuroml2"'
 
-# member list -> (xml element, class name, where the tag goes)
-KINDS = {
-    "ion_channel": ("ionChannel", "IonChannel", "meta"),
-    "morphology": ("morphology", "Morphology", "meta"),
-    "cells": ("cell", "Cell", "meta"),
-    "biophysical_properties": ("biophysicalProperties", "BiophysicalProperties", "meta"),
-    "pulse_generators": ("pulseGenerator", "PulseGenerator", "meta"),
-    "iaf_cells": ("iafCell", "IafCell", "meta"),
-    "ComponentType": ("ComponentType", "ComponentType", "desc"),
-    "networks": ("network", "Network", "notes"),
-}
+def build_kinds():
+    """every list member of NeuroMLDocument except includes:
+    member -> (xml element, class name, where the tag goes, has an id member, has a name member)"""
+    items = neuroml.NeuroMLDocument.member_data_items_
+    items = items.values() if isinstance(items, dict) else items
+    kinds = {}
+    for m in items:
+        name = m.get_name()
+        if not m.get_container() or name == "includes":
+            continue
+        cls = getattr(neuroml, m.get_data_type(), None)
+        if cls is None:
+            continue
+        el = (m.get_child_attrs() or {}).get("name") or name
+        o = cls()
+        if name == "networks":
+            where = "notes"  # the only thing of a network the HDF5 format keeps besides the id
+        elif hasattr(o, "metaid"):
+            where = "meta"
+        elif name == "ComponentType":
+            where = "desc"
+        else:
+            where = "none"
+        kinds[name] = (el, m.get_data_type(), where, hasattr(o, "id"), hasattr(o, "name") and not hasattr(o, "id"))
+    return kinds
+
+
+KINDS = build_kinds()
 
 
 class Guard(BaseException):
@@ -50,14 +67,16 @@ def _alarm(signum, frame):
 
 
 def comp_xml(c):
-    el, _, where = KINDS[c["list"]]
+    el, _, where, has_id, has_name = KINDS[c["list"]]
     tag = "t%d" % c["tag"]
     if where == "desc":
         return '<%s name="%s" description="%s"/>' % (el, c["id"], tag)
-    ida = ' id="%s"' % c["id"] if c["idk"] == "s" else ""
+    ida = ' id="%s"' % c["id"] if (has_id and c["idk"] == "s") else ""
     if where == "notes":
         return "<%s%s><notes>%s</notes></%s>" % (el, ida, tag, el)
-    return '<%s%s metaid="%s"/>' % (el, ida, tag)
+    if where == "meta":
+        return '<%s%s metaid="%s"/>' % (el, ida, tag)
+    return "<%s%s/>" % (el, ida)
 
 
 def href_str(root, h):
@@ -74,15 +93,15 @@ def xml_text(root, docid, comps, incs):
 
 
 def comp_obj(c):
-    _, cls, where = KINDS[c["list"]]
+    _, cls, where, has_id, has_name = KINDS[c["list"]]
     k = getattr(neuroml, cls)
     tag = "t%d" % c["tag"]
     if where == "desc":
         return k(name=c["id"], description=tag)
-    o = k(id=c["id"] if c["idk"] == "s" else None)
+    o = k(id=c["id"] if c["idk"] == "s" else None) if has_id else k()
     if where == "notes":
         o.notes = tag
-    else:
+    elif where == "meta":
         o.metaid = tag
     return o
 
@@ -115,6 +134,8 @@ def materialise(root, case):
 
 def tag_of(name, o):
     where = KINDS.get(name, (None, None, "meta"))[2]
+    if where == "none":
+        return -1
     s = {"desc": getattr(o, "description", None), "notes": getattr(o, "notes", None),
          "meta": getattr(o, "metaid", None)}[where]
     try:
@@ -207,13 +228,13 @@ def fresh_default_lists():
                 del d[:]
 
 
-def run_once(root, case, cwd, guard_s):
+def run_once(root, case, cwd, opt, guard_s):
     fresh_default_lists()
     del LOADS[:]
     os.chdir(os.path.join(root, *cwd))
     al = [os.path.join(root, *p) if p else root for p in case["al"]]
     ent = case["entry"]
-    res = {"outcome": "done", "lists": {}, "extra_lists": [], "incs_left": 0, "detail": ""}
+    res = {"outcome": "done", "lists": {}, "extra_lists": [], "incs_left": 0, "detail": "", "cwd": cwd, "opt": bool(opt)}
     signal.signal(signal.SIGALRM, _alarm)
     signal.setitimer(signal.ITIMER_REAL, guard_s)
     try:
@@ -221,7 +242,7 @@ def run_once(root, case, cwd, guard_s):
             p = os.path.join(root, *ent["file"])
             if ent.get("style") == "rel":
                 p = os.path.relpath(p, os.getcwd())
-            doc = L.read_neuroml2_file(p, include_includes=True, already_included=al)
+            doc = L.read_neuroml2_file(p, include_includes=True, already_included=al, optimized=bool(opt))
         else:
             b = ent.get("base")
             if b is not None:
@@ -229,7 +250,7 @@ def run_once(root, case, cwd, guard_s):
                 if ent.get("base_style") == "rel":
                     b = os.path.relpath(b, os.getcwd())
             doc = L.read_neuroml2_string(xml_text(root, "entry", ent["string"]["comps"], ent["string"]["incs"]),
-                                         include_includes=True, already_included=al, base_path=b)
+                                         include_includes=True, already_included=al, base_path=b, optimized=bool(opt))
         signal.setitimer(signal.ITIMER_REAL, 0)
         res["lists"], res["extra_lists"] = lists_of(doc, case["names"])
         res["incs_left"] = len(doc.includes)
@@ -302,8 +323,36 @@ def oracle(root, case, cwd):
             "href_exists_from_cwd": state["from_cwd"]}
 
 
+def describe():
+    """which member lists can be generated: one element must survive XML parsing and XML export + parsing"""
+    import io
+    from neuroml.nml.nml import parseString
+    out, bad = [], []
+    for name, (el, cls, where, has_id, has_name) in sorted(KINDS.items()):
+        c = {"list": name, "idk": "s" if has_id else "n", "id": "x", "tag": 7}
+        try:
+            d1 = parseString(xml_text("", "d", [c], []), silence=True)
+            doc = neuroml.NeuroMLDocument(id="d")
+            getattr(doc, name).append(comp_obj(c))
+            sf = io.StringIO()
+            W.NeuroMLWriter.write(doc, sf, close=False)
+            d2 = parseString(sf.getvalue(), silence=True)
+            want = [(["s", "x"] if has_id else ["n", "x" if has_name else ""]) + [7 if where != "none" else -1]]
+            for d in (d1, d2):
+                got, extra = lists_of(d, [name])
+                assert got[name] == want and not extra, (got, extra)
+            out.append({"list": name, "has_id": has_id, "has_name": has_name, "tagged": where != "none"})
+        except Exception as e:
+            bad.append([name, ("%s: %s" % (type(e).__name__, e))[:120]])
+    return {"lists": out, "unusable": bad}
+
+
 def main():
     req = json.load(sys.stdin)
+    if req.get("describe"):
+        print()
+        print(json.dumps(describe()))
+        return
     sys.setrecursionlimit(int(req.get("recursion_limit", 400)))
     guard_s = float(req.get("guard_s", 20))
     top = os.path.realpath(tempfile.mkdtemp(prefix="c06_"))
@@ -317,8 +366,10 @@ def main():
                 materialise(root, case)
                 runs, orcs = [], []
                 for cwd in [case["cwd"]] + list(case.get("cwds", [])):
-                    runs.append(run_once(root, case, cwd, guard_s))
-                    orcs.append(oracle(root, case, cwd))
+                    o = oracle(root, case, cwd)
+                    for opt in case.get("opts", [False]):
+                        runs.append(run_once(root, case, cwd, opt, guard_s))
+                        orcs.append(o)
                 out.append({"runs": runs, "oracles": orcs})
             finally:
                 os.chdir(home)
